@@ -10,3 +10,4 @@ INVARIANT ReportOrderOk
 INVARIANT ReportOnce
 CHECK_DEADLOCK FALSE
 INVARIANT ReportExpect
+INVARIANT ReportFullyResolved
